@@ -10,6 +10,7 @@ CONSTANTS
   PairPer = 8
   TriplePer = 2
   OverlapPer = 2
+  Doubling = FALSE
   GroupsExhaustive = FALSE
   Salt = 0
 INIT Init
